@@ -9,7 +9,7 @@ MANIFEST_BASE = {
         "guard": "verif",
         "enable": "go build/test -tags verif (the driver passes it on every build of /repo code)",
         "baseline_off_cmd": "cd /repo && go build ./... && go test -vet=off -count=1 -timeout 25m ./...",
-        "source_commits": ["1a24631", "b1bce3c"],
+        "source_commits": ["1a24631", "b1bce3c", "e841acb"],
         "add_only": True,
     },
     "engines": [
@@ -231,6 +231,7 @@ CHECKS["C05"] = {
         {"engine": "P", "pkg": "internal/upstream/transport", "tests": [
             {"run": "TestVfC05Pipeline", "quick": 2400, "thorough": 160000, "shards_quick": 12, "shards_thorough": 16, "args": ["-rapid.steps", "50"], "timeout_thorough": 3400},
             {"run": "TestVfC05Rollover", "quick": 8, "thorough": 960, "timeout_thorough": 3000, "shards_quick": 8, "shards_thorough": 16},
+            {"run": "TestVfC05SharedLoad", "quick": 8, "thorough": 640, "timeout_thorough": 3000, "shards_quick": 8, "shards_thorough": 16},
             {"run": "TestVfC05SlowFrame", "quick": 320, "thorough": 32000, "timeout_thorough": 3000, "shards_quick": 8, "shards_thorough": 16},
         ]},
         # the udp upstream as its callers see it (multiplexed UDP leg + TCP leg): a returned message is the reply to the
@@ -395,6 +396,7 @@ CHECKS["C19"] = {
     "parts": [
         {"engine": "E", "proxy": ["plain"], "tests": [
             {"run": "TestVfC19Prefetch", "quick": 4, "thorough": 170, "shards_quick": 4, "shards_thorough": 8, "timeout_thorough": 3400, "shrinktime": "30s"},
+            {"run": "TestVfC19StoreRace", "quick": 2, "thorough": 60, "shards_quick": 2, "shards_thorough": 8, "timeout_thorough": 3400, "shrinktime": "40s"},
         ]},
         {"engine": "P", "pkg": "app/router", "tests": [
             {"run": "TestVfC19ReserveHammer", "quick": 24, "thorough": 36920, "timeout_thorough": 3000, "shards_quick": 4, "shards_thorough": 8, "shrinktime": "5s", "exclusive": True},
